@@ -77,4 +77,20 @@ PROPS = {
         ],
         explanation="",
     ),
+    "C07": dict(
+        module="SeliumModel.Props.C07",
+        suites=["topic"],
+        level="proof",
+        rule="TopicName::try_from / create / Display on: hand-picked strings, boundary lengths 2/3/4/63/64/65 in characters with 1-, 2- and 3-byte characters, every ASCII character in four positions, every boundary (lo-1, lo, hi, hi+1) of all ranges of the regex crate's [\\w-] class, random strings over an alphabet with slashes, multi-byte characters and the reserved word, structured mostly-valid names; create() vs try_from(printed form); "
+             "distinct = distinct case lines; none counted trivial",
+        trusted_base=COMMON_TRUST + [
+            "the regex engine matches a pattern of the extracted shape ^ sep (class{m,n}) sep (class{m,n}) $ as Topic/Name.lean models it (exercised on every run, incl. every class-range boundary)",
+            "regex-syntax (same version as in /repo/Cargo.lock) resolves \\w to the table the engine uses",
+        ],
+        assumptions=[
+            "'letters, digits' is read as the class the code uses (Unicode \\w); the theorems are independent of the class except that '/' is not in it",
+            "the server-side INVALID_TOPIC_NAME reply and per-name isolation are checked end to end by the registry suite (C11) as well",
+        ],
+        explanation="",
+    ),
 }
